@@ -131,8 +131,14 @@ def rule_f3(chk: Check, ix: Index):
     f = ix.get("handle_fstring_progs")
     dp = delimiter_paths(ix)
 
+    from ..fprogs import primitives
+
+    def stack_empty(p):
+        return any(x[0] == "cond" and x[1] == "state.end_progs" and not x[2] for x in p)
+
     def mode_effects(p):
-        return [x[1] for x in p if x[0] == "do" and x[1].startswith(("state.parenlev", "state.add_prog(", "state.pop_mode(", "state.end_progs"))]
+        return primitives(ix, p)
+    RESTART = "restart((state.lnum, end))"
 
     def emits(p, *needles):
         return [i for i, x in enumerate(p) if x[0] == "do" and "yield" in x[1] and all(n in x[1] for n in needles)]
@@ -143,39 +149,107 @@ def rule_f3(chk: Check, ix: Index):
     chk.count("F3-push-pop")
     ok = True
     for p in dp["RBrace"]:
+        if stack_empty(p):
+            continue
         me = mode_effects(p)
-        pops = [s for s in me if s.startswith("state.pop_mode(")]
-        ok = ok and sorted(me) == sorted(["state.parenlev -= 1", "state.pop_mode()", "state.pop_mode((state.lnum, end))"]) \
-            and pops == ["state.pop_mode()", "state.pop_mode((state.lnum, end))"]
+        stack = [s for s in me if not s.startswith("state.parenlev")]
+        ok = ok and sorted(me) == sorted(["state.parenlev -= 1", "pop", "pop", RESTART]) and stack == ["pop", "pop", RESTART]
     chk.require(ok, "F3-push-pop", "handle_fstring_progs:}", f.where,
                 "emitting the `}` that ends a format spec must lower the bracket depth and pop exactly two modes: the spec, then the braces "
                 "(restarting the literal part right after the brace)")
-    # the ordinary closing brace (no spec)
+    # operators in ordinary scanning: the paths of next_psuedo_matches that a given operator lexeme can take (tests on the token
+    # text are evaluated for it, tests on the scanner state split the cases) and the mode/depth effects performed on them
     g = ix.get("next_psuedo_matches")
+    from ..pyflow import stmt_paths
+    import types as _types
+    F = constfold.fold_tokenize()
+    paths = stmt_paths(g.node.body, split_bool=True)
+    SAMPLES = ["(", "[", "{", "$(", "@(", "![", "${", "$[", "@$(", "!(", ")", "]", "}", ":", ":=", "->", "+", "=", "==", ",", ";", ".", "...",
+               "|", "&&", "**=", "<", "@", "!", "?", "??", "$"]
+
+    def takes(p, t):
+        env = dict(F.ns)
+        env.update(token=t, match=_types.SimpleNamespace(lastgroup="Special"))
+        for x in p:
+            if x[0] != "cond":
+                continue
+            tree = ast.parse(x[1], mode="eval")
+            names = {n.id for n in ast.walk(tree) if isinstance(n, ast.Name)}
+            if "state" in names or not names & {"token", "match"} or any(isinstance(n, ast.Call) and not isinstance(n.func, ast.Attribute) for n in ast.walk(tree)):
+                continue
+            try:
+                v = bool(eval(compile(tree, "<cond>", "eval"), {"__builtins__": {}}, env))
+            except Exception:
+                continue
+            if v != x[2]:
+                return False
+        return True
+
+    def effects(p):
+        out = []
+        for x in p:
+            if x[0] == "do" and x[1].startswith("state.pos ") and x[1] != "state.pos = end":
+                out.append(x[1])
+            elif x[0] == "do":
+                out += primitives(ix, (x,))
+        return out
+    bad = {"opener": None, "closer": None, "colon": None, "other": None}
+    seen = {"closer-inside": 0, "closer-outside": 0, "colon-inside": 0}
+    for t in SAMPLES:
+        kind = "opener" if t[-1] in "([{" else "closer" if t in (")", "]", "}") else "colon" if t[0] == ":" else "other"
+        mine = [p for p in paths if takes(p, t) and any(x[0] == "cond" and "Special" in x[1] and x[2] for x in p)
+                and not any(x == ("cond", "token_type", False) for x in p)]
+        if not mine:
+            bad[kind] = (t, "no path of the operator branch accepts it")
+            continue
+        for p in mine:
+            conds = {x[1]: x[2] for x in p if x[0] == "cond"}
+            inside = conds.get("state.in_braces()") is True and conds.get("state.at_parenlev()") is True
+            outside = conds.get("state.in_braces()") is False or conds.get("state.at_parenlev()") is False
+            eff = effects(p)
+            if kind == "opener":
+                ok = eff == ["state.parenlev += 1"]
+            elif kind == "closer":
+                if inside and stack_empty(p):
+                    ok = True
+                elif inside:
+                    ok = eff == ["pop", RESTART, "state.parenlev -= 1"]
+                    seen["closer-inside"] += 1
+                elif outside:
+                    ok = eff == ["state.parenlev -= 1"]
+                    seen["closer-outside"] += 1
+                else:
+                    ok = False
+            elif kind == "colon":
+                if inside:
+                    ok = sorted(e.split("(")[0] for e in eff) == ["state.add_prog", "state.pos = start + 1"] and \
+                        any(e.startswith(("state.add_prog(start + 1, start + 1, mode=ModeInColon(state.parenlev)",
+                                          "state.add_prog(start + 1, end, mode=ModeInColon(state.parenlev)")) for e in eff) and \
+                        p[-1][1] == "return" and p[-1][2].startswith("TokenInfo(Token.OP,")
+                    seen["colon-inside"] += 1
+                else:
+                    ok = eff == [] and (outside or True)
+            else:
+                ok = eff == []
+            if not ok and bad[kind] is None:
+                bad[kind] = (t, eff, {k: v for k, v in conds.items() if "state." in k})
     chk.count("F3-push-pop")
-    ok = False
-    for n in ast.walk(g.node):
-        if isinstance(n, ast.If) and norm_stmt(n.test) == "token in ')]}'":
-            b = [norm_stmt(s) for s in n.body]
-            ok = len(b) == 2 and b[0].startswith("if state.in_braces() and state.at_parenlev(): state.pop_mode((state.lnum, end))") and b[1] == "state.parenlev -= 1"
-    chk.require(ok, "F3-push-pop", "next_psuedo_matches:closer", g.where,
-                "a closing bracket at the depth recorded by the in-braces mode must pop that mode before the depth is lowered")
+    chk.require(bad["opener"] is None, "F3-push-pop", "next_psuedo_matches:opener", g.where,
+                f"an operator ending in an opening bracket must raise the bracket depth by one and change no mode: {bad['opener']}")
     chk.count("F3-push-pop")
-    ok = False
-    for n in ast.walk(g.node):
-        if isinstance(n, ast.If) and any(isinstance(c, ast.Call) and norm_stmt(c.func) == "ModeInColon" for st in n.body if not isinstance(st, ast.If) for c in ast.walk(st)):
-            conj = {norm_stmt(v) for v in (n.test.values if isinstance(n.test, ast.BoolOp) and isinstance(n.test.op, ast.And) else [n.test])}
-            b = [norm_stmt(s) for s in n.body]
-            # the token test itself is F7's; here: only directly inside the braces, and the spec starts right after the colon
-            ok = {"state.in_braces()", "state.at_parenlev()"} <= conj and len(conj) == 3 and \
-                sum(1 for x in b if x.startswith("state.add_prog(")) == 1 and \
-                any(x.startswith(("state.add_prog(start + 1, end, mode=ModeInColon(state.parenlev)",
-                                  "state.add_prog(start + 1, start + 1, mode=ModeInColon(state.parenlev)")) for x in b)
-    chk.require(ok, "F3-push-pop", "next_psuedo_matches:colon", g.where,
-                "a `:` directly inside the braces (at the recorded depth) must push the format-spec mode starting after the colon")
+    chk.require(bad["closer"] is None and seen["closer-inside"] and seen["closer-outside"], "F3-push-pop", "next_psuedo_matches:closer", g.where,
+                f"a closing bracket at the depth recorded by the in-braces mode must pop that mode (restarting the literal part after the "
+                f"bracket) before the depth is lowered, and only lower the depth otherwise: {bad['closer']}")
+    chk.count("F3-push-pop")
+    chk.require(bad["colon"] is None and seen["colon-inside"], "F3-push-pop", "next_psuedo_matches:colon", g.where,
+                f"a `:` directly inside the braces (at the recorded depth) must push the format-spec mode starting after the colon and "
+                f"emit the one-character operator; elsewhere it changes nothing: {bad['colon']}")
+    chk.count("F3-push-pop")
+    chk.require(bad["other"] is None, "F3-push-pop", "next_psuedo_matches:other-operators", g.where,
+                f"an operator that is neither a bracket nor a colon must not change the bracket depth or the mode stack: {bad['other']}")
     # end of the f-string pops the middle mode
     chk.count("F3-push-pop")
-    ok = all(mode_effects(p) == ["state.pop_mode()"] and emits(p, "Token.FSTRING_END") for p in dp["End"])
+    ok = all(mode_effects(p) == ["pop"] and emits(p, "Token.FSTRING_END") for p in dp["End"])
     chk.require(ok, "F3-push-pop", "handle_fstring_progs:end", f.where,
                 "the closing quote must emit FSTRING_END and pop the literal-part mode")
 
